@@ -53,7 +53,9 @@ def base_library(i):
         return bibtexparser.parse_string(DOCS[7], append_middleware=[mw.MonthIntMiddleware()])
     if i == n + 4:  # separated names, one of them invalid: a later SplitNameParts makes the error block itself
         return bibtexparser.parse_string(
-            "@a{ok1, author = {G H}}\n@a{bad, author = {I J and A, B, C, D and E F}, editor = {K L}, t = {x}}\n@b{ok2, author = {M N}}",
+            "@a{ok1, author = {G H}}\n@a{bad, author = {I J and A, B, C, D and E F}, editor = {K L}, t = {x}}\n@b{ok2, author = {M N}}\n"
+            # (the invalid name in a later name field, after one that is converted first, and before another)
+            "@a{bad2, author = {O P and Q R}, editor = {S, T, U, V}, translator = {W X}, t = {y}}",
             append_middleware=[mw.SeparateCoAuthors()],
         )
     if i == n + 5:  # a long document (size thresholds)
